@@ -63,7 +63,8 @@ def script (tid seed rounds : Nat) : List (Nat × List String) :=
     if isC it then
       [(it, newLine it it sd),
        (it, ["chacha", "seek", slot, "u64", toString (offA seed tid it)]),
-       (it, ["chacha", "applypat", slot, toString (320 + lenA seed tid it), toString sd])]
+       (it, ["chacha", "applypat", slot, toString (320 + lenA seed tid it), toString sd])] ++
+      (if (item it).2.1 = "chacha20" ∧ tid < 3 then [(it, ["chacha", "applysum", slot, "66048"])] else [])
     else
       [(it, newLine it it sd),
        (it, [fam, "updpat", slot, toString (lenA seed tid it), toString sd]),
